@@ -230,6 +230,16 @@ int main(int argc, char **argv)
 							if (mism < 400) printf("[\"X\",\"%s; THEN THE SAME TOKEN AGAIN ON THE SAME CHECKER\",%d,\"%s\",%d,%d,%d,0]\n", ptxt, pol, TOKNAME[t], prov, rc2, expect);
 						}
 					}
+					/* a refusing callback, asked again: the same token and then another one on the checker whose callback has just refused.
+					 * The refusal is a verdict on one verification; it changes nothing about the checker, and every later non-zero return
+					 * fails its verification as the first one did */
+					if (pg.ret) {
+						int t2 = (t + 1 + (int)(pidx % (NTOK - 1))) % NTOK;
+						int rc2 = jwt_checker_verify(c, TOK[t]), rc3 = jwt_checker_verify(c, TOK[t2]);
+						pairs += 2; repeats += 2; nonzero += 2;
+						if (rc2 == 0) { mism++; printf("[\"X\",\"%s; THEN THE SAME TOKEN AGAIN ON THE CHECKER WHOSE CALLBACK REFUSED\",%d,\"%s\",%d,%d,%d,%d]\n", ptxt, pol, TOKNAME[t], prov, rc2, expect, pg.ret); }
+						if (rc3 == 0) { mism++; printf("[\"X\",\"%s; THEN ANOTHER TOKEN ON THE CHECKER WHOSE CALLBACK REFUSED\",%d,\"%s\",%d,%d,%d,%d]\n", ptxt, pol, TOKNAME[t2], prov, rc3, base[prov][pol][t2], pg.ret); }
+					}
 					jwt_checker_free(c);
 				}
 			}
